@@ -31,6 +31,8 @@ func checkC09(c *Ctx) {
 	rSlotSwap(c, "R09.9 replaced-balancer-is-the-slot's-previous-occupant")
 	rRotationOnlyRefreshed(c, "R09.10 rotation-written-only-by-the-refresh")
 	rDrainKeepsHealthVerdict(c, "R09.11 drain-keeps-the-health-verdict")
+	// the balancer that was put in service is not disposed by the command that installed it (shared with C01)
+	r011(c, "R09.12 health-gate-dominates-publication")
 }
 
 func r092(c *Ctx) {
